@@ -6,6 +6,7 @@ package main
 
 import (
 	"fmt"
+	"path/filepath"
 	"go/constant"
 	"go/token"
 	"go/types"
@@ -199,6 +200,7 @@ func (e *Engine) visitInstr(fr *frame, instr ssa.Instruction) (ret bool, jumped 
 		case token.MUL:
 			fr.env[instr] = e.load(x.(*Value), instr)
 		case token.ARROW:
+			fr.g.siteOK = e.siteOK(instr.Pos())
 			v, ok := e.chanRecv(fr.g, x.(*Chan), instr.X.Type().Underlying().(*types.Chan).Elem())
 			if instr.CommaOk {
 				fr.env[instr] = Tuple{v, ok}
@@ -269,6 +271,7 @@ func (e *Engine) visitInstr(fr *frame, instr ssa.Instruction) (ret bool, jumped 
 		panic(targetPanic{fr.get(instr.X)})
 
 	case *ssa.Send:
+		fr.g.siteOK = e.siteOK(instr.Pos())
 		e.chanSend(fr.g, fr.get(instr.Chan).(*Chan), fr.get(instr.X))
 
 	case *ssa.Store:
@@ -298,6 +301,7 @@ func (e *Engine) visitInstr(fr *frame, instr ssa.Instruction) (ret bool, jumped 
 
 	case *ssa.Go:
 		fn, args := e.prepareCall(fr, &instr.Call)
+		fr.g.siteOK = e.siteOK(instr.Pos())
 		e.spawn(fr.g, fn, args, instr.Pos())
 
 	case *ssa.MakeChan:
@@ -417,6 +421,7 @@ func (e *Engine) visitInstr(fr *frame, instr ssa.Instruction) (ret bool, jumped 
 		fr.env[instr] = &Closure{Fn: instr.Fn.(*ssa.Function), Env: bindings}
 
 	case *ssa.Select:
+		fr.g.siteOK = e.siteOK(instr.Pos())
 		fr.env[instr] = e.selectOp(fr, instr)
 
 	default:
@@ -576,11 +581,17 @@ func (e *Engine) callSSA(caller *frame, pos token.Pos, fn *ssa.Function, args []
 	key := funcKey(fn)
 	if ext, ok := e.externals[key]; ok {
 		e.noteStub(key)
+		if g != nil {
+			g.siteOK = e.siteOK(pos)
+		}
 		return ext(fr, args)
 	}
 	if fn.Blocks == nil || e.redirects[key] != nil {
 		// intrinsic of the harness runtime?
 		if in, ok := e.intrinsics[fn.Name()]; ok && (fn.Pkg == nil || e.isHarnessPkg(fn.Pkg)) && fn.Blocks == nil {
+			if g != nil {
+				g.siteOK = e.siteOK(pos)
+			}
 			return in(fr, args)
 		}
 		if m := e.redirects[key]; m != nil {
@@ -865,6 +876,7 @@ func (e *Engine) callBuiltin(caller *frame, pos token.Pos, fn *ssa.Builtin, args
 		return int64(n)
 
 	case "close":
+		caller.g.siteOK = e.siteOK(pos)
 		e.chanClose(caller.g, args[0].(*Chan))
 		return nil
 
@@ -1111,4 +1123,20 @@ func shortFn(fn *ssa.Function) string {
 	s := fn.String()
 	s = strings.ReplaceAll(s, "github.com/jilio/ebu", "ebu")
 	return s
+}
+
+// siteOK: is pos inside code that the native replay instruments (the package
+// under test and the harness files, not models and not the standard library)?
+func (e *Engine) siteOK(pos token.Pos) bool {
+	if pos == token.NoPos {
+		return false
+	}
+	file := e.prog.Fset.Position(pos).Filename
+	if v, ok := e.siteCache[file]; ok {
+		return v
+	}
+	base := filepath.Base(file)
+	ok := filepath.Dir(file) == e.pkgDir && !strings.HasPrefix(base, "zz_verif_m_") && !strings.HasPrefix(base, "zz_verif_rt_")
+	e.siteCache[file] = ok
+	return ok
 }
